@@ -49,6 +49,20 @@ def run_model(ctx, ops_p, model_p):
         return False, f"model driver nm_C04 is not available ({e}); implementation-side oracles only"
 
 
+def rsa_modulus(blob):
+    """modulus of an "ssh-rsa" key blob (RFC 4253: string "ssh-rsa", mpint e, mpint n), None for any other blob"""
+    fields = []
+    while len(blob) >= 4 and len(fields) < 3:
+        ln = int.from_bytes(blob[:4], "big")
+        if ln > len(blob) - 4:
+            return None
+        fields.append(blob[4:4 + ln])
+        blob = blob[4 + ln:]
+    if len(fields) < 3 or fields[0] != b"ssh-rsa":
+        return None
+    return int.from_bytes(fields[2], "big", signed=True)
+
+
 def first_seg(path):
     return path.strip("/").split("/")[0]
 
@@ -75,7 +89,7 @@ def target_form(show):
 def run(ctx):
     facts = ctx.facts()
     ctx._c04_facts = facts or {}
-    thms = ctx.build_and_audit(["NutsProofs.Props.C04", "NutsProofs.Props.C04L", "NutsProofs.Props.C04J", "NutsProofs.Props.C04C"])
+    thms = ctx.build_and_audit(["NutsProofs.Props.C04", "NutsProofs.Props.C04L", "NutsProofs.Props.C04J", "NutsProofs.Props.C04C", "NutsProofs.Props.C04K"])
     required = ["no_bypass", "granted_sound", "denied_is_401_no_effect", "denied_guarded_runs_nothing", "internal_never_public",
                 "same_address_shared", "configured_binds", "requestURI_selector_admits_bypass", "requestURI_selector_admits_query_bypass",
                 "without_exp_check_zero_exp_never_expires", "atLeastOne_rule_admits_two_signatures",
@@ -95,7 +109,10 @@ def run(ctx):
                 # configuration text -> policy
                 "fact_config_load_order", "fact_env_constants", "fact_env_key_and_flag_load", "fact_http_flags_match_config_tags", "fact_auth_config_keys",
                 "command_line_wins", "environment_beats_file", "unmentioned_key_is_empty", "policy_no_auth_only_if_type_is_empty",
-                "token_auth_on_the_command_line_is_enforced", "config_text_to_no_bypass", "config_text_to_listener_separation"]
+                "token_auth_on_the_command_line_is_enforced", "config_text_to_no_bypass", "config_text_to_listener_separation",
+                # round 3: the strength rule on the bytes of the key blob
+                "fact_rsa_measure_is_bit_length", "bitLen_spec", "bitLen_ge_iff", "sizeBits_bounds", "secure_blob_kinds", "rsa_blob_secure_iff",
+                "size_rule_admits_weak_modulus", "authorized_blob_keys_sound"]
     for r in required:
         if not any(t.endswith("Props." + r) for t in thms):
             ctx.oblige("thm-present:" + r, False, "theorem missing or its module does not build")
@@ -118,7 +135,7 @@ def run(ctx):
     replay_kind = None
     if ctx.replay:
         txt = open(ctx.replay).read()
-        replay_kind = "tok" if '"apitoken"' in txt else ("cfg" if '"cfgload"' in txt else "http")
+        replay_kind = "tok" if ('"apitoken"' in txt or '"akeys"' in txt) else ("cfg" if '"cfgload"' in txt else "http")
 
     # ------------------------------------------------------------------ (1) raw TCP against the real engine
     total_lines = total_bad = 0
@@ -415,12 +432,37 @@ def token_part(ctx, out):
     distinct = set()
     seen_sig = set()
     o_bad = 0
-    n_uuid = 0
+    n_uuid = n_akeys = n_moduli = 0
     for i, line in enumerate(impl):
         if i >= len(ops) or not ops[i]:
             continue
         op = json.loads(ops[i])
         if op.get("op") == "akeys":
+            # O11 "signed by an authorised key": an entry whose key is an RSA key with a modulus below 2^2047 never becomes an authorised
+            # key. The modulus is read from the entry's key blob here (ssh wire format), independently of harness and model.
+            n_akeys += 1
+            got = [] if line in ("parse-error", "") else line.split("|")
+            strong = Counter()
+            weak = {}
+            for ln in op.get("lines") or []:
+                v = ln.get("v") or {}
+                if v.get("err") or not v.get("comment"):
+                    continue
+                n = rsa_modulus(bytes.fromhex(v.get("blob", "")))
+                if n is not None and n < 2 ** 2047:
+                    weak[v["comment"]] = n
+                else:
+                    strong[v["comment"]] += 1
+            n_moduli += len(weak) + sum(strong.values())
+            for name, n in weak.items():
+                if got.count(name) > strong[name]:
+                    o_bad += 1
+                    sig = "C04:token:authorized-keys-weak-rsa-modulus"
+                    if sig not in seen_sig:
+                        seen_sig.add(sig)
+                        ctx.violation(sig, f"authorized_keys file '{op['file']}': the entry of user '{name}' carries an RSA key whose modulus has {n.bit_length()} bits "
+                                      f"(below 2^2047) and became an authorised key: {line[:200]}", "token-authorized-keys-weak-rsa-modulus.jsonl",
+                                      json.dumps({"c": "akeys", "name": op["file"]}))
             continue
         if op.get("op") == "uuid":
             n_uuid += 1
@@ -466,7 +508,8 @@ def token_part(ctx, out):
     ctx.oblige("oracle:granted-only-for-tokens-the-property-allows(impl)", o_bad == 0, f"{o_bad} variants")
     ctx.oblige("non-vacuous:some-valid-token-granted(impl)", ctx.replay is not None or results["granted"] > 0, str(dict(results)))
     correspondence(ctx, "tokenV2", impl, model, bad, ops, o_bad)
-    return len(impl), len(bad), {"variants": len(impl), "classes": dict(classes), "results": dict(results), "uuid_grammar_differential": n_uuid}, distinct
+    return len(impl), len(bad), {"variants": len(impl), "classes": dict(classes), "results": dict(results), "uuid_grammar_differential": n_uuid,
+                                      "authorized_keys_files": n_akeys, "authorized_keys_entries_measured": n_moduli}, distinct
 
 
 def _env_value(raw):
